@@ -554,7 +554,8 @@ func calculateObjectClassAndIsStatic(targetT base.T) (string, bool) {
 
 	// 1, '1', 1.1, [], {} and more...
 	switch targetT.GetType() {
-	case base.INT, base.FLOAT, base.ARRAY, base.HASH, base.STRING, base.OBJECT:
+	case base.INT, base.FLOAT, base.ARRAY, base.HASH, base.STRING, base.OBJECT,
+		base.SYMBOL, base.NIL, base.BOOL, base.RANGE:
 		return targetT.GetObjectClass(), false
 
 	case base.UNKNOWN:
